@@ -243,3 +243,18 @@ MUTANTS += [
  {"id": "c17-quarter", "prop": "C17", "file": _GC, "old": "    elif prefactor in [Rational(1, 2), Rational(1, 4)]:  # simple Rational\n        return str(float(prefactor))", "new": "    elif prefactor in [Rational(1, 2), Rational(1, 4)]:  # simple Rational\n        return str(float(prefactor * 2))"},
  {"id": "c17-adcc-name", "prop": "C17", "file": _GC, "old": "    elif name.startswith(tensor_names.fock):\n        space = \"\".join(s.space[0] for s in indices)\n        return f\"hf.f{space}\"", "new": "    elif name.startswith(tensor_names.fock):\n        space = \"\".join(s.space[0] for s in indices[::-1])\n        return f\"hf.f{space}\""},
 ]
+_DV = "adcgen/derivative.py"
+MUTANTS += [
+ {"id": "c14-exponent-kept", "prop": "C14", "file": _SI, "old": "            remaining_term *= Pow(base, exponent - 1)", "new": "            remaining_term *= Pow(base, exponent)"},
+ {"id": "c14-later-occurrences-lost", "prop": "C14", "file": _SI, "old": "        for remaining_t in tensors[1:]:\n            remaining_term *= remaining_t", "new": "        for remaining_t in tensors[2:]:\n            remaining_term *= remaining_t"},
+ {"id": "c14-exponent-refusal", "prop": "C14", "file": _SI, "old": "        elif exponent < 1:\n            raise NotImplementedError(\"Did not implement the case of removing \"", "new": "        elif exponent < 0:\n            raise NotImplementedError(\"Did not implement the case of removing \""},
+ {"id": "c14-deriv-power-rule", "prop": "C14", "file": _DV, "old": "                symmetrized_deriv_contrib.subs(x, obj.base)", "new": "                symmetrized_deriv_contrib.subs(x, obj)"},
+ {"id": "c14-deriv-symfactor", "prop": "C14", "file": _DV, "old": "            deriv_contrib *= Rational(1, len(tensor_sym) + 1)", "new": "            deriv_contrib *= Rational(1, len(tensor_sym))"},
+ {"id": "c14-deriv-product-rule", "prop": "C14", "file": _DV, "old": "                if i != other_i:\n                    deriv_contrib *= other_obj", "new": "                if i < other_i:\n                    deriv_contrib *= other_obj"},
+ {"id": "c14-remove-braket-half", "prop": "C14", "file": _SI, "old": "        if bra_ket_sym is not None and bra_ket_sym is not S.Zero:\n            term *= Rational(1, 2)", "new": "        if bra_ket_sym is not None:\n            term *= Rational(1, 2)"},
+]
+HARMLESS += [
+ # target indices on the removed tensor are replaced by fresh indices + deltas before the
+ # minimisation, so the minimised tensor never needs a sign (dead path)
+ {"id": "c14-h-remove-sign", "prop": "C14", "file": _SI, "old": "        # if we got a -1 -> move to the term\n        term *= tensor.prefactor", "new": "        # if we got a -1 -> move to the term\n        term *= 1"},
+]
